@@ -247,9 +247,12 @@ package dkg
 //@   modifies nothing
 //@   ensures err == nil ==> me != nil
 
-//@ extern (*Process).gossip(d, me, recipients, packet) (errs)
-//@   trusted fans the packet out in goroutines; does not touch the DKG store
-//@   modifies nothing
+//@ func (*Process).gossip(d, me, recipients, packet) (errs)
+//@   props C14
+//@   flags lockcheck lock-held-on-entry trustedframe
+//@   trusted fans the packet out in goroutines, marks it as seen; does not touch the DKG store or the records (frame not checked against the body)
+//@   requires [C14:gossip-runs-under-the-process-lock] held(d.lock)
+//@   modifies mapof(d.SeenPackets)
 
 //@ extern NewFreshState(beaconID) (s)
 //@   trusted composite literal
@@ -316,8 +319,10 @@ package dkg
 //@   call StartAbort#0: assert [C08:command-abort-applies-to-fallback-state] fallbackState(d, command.Metadata.BeaconID, arg3)
 
 //@ func (*Process).applyPacketToState(d, beaconID, packet) (err)
-//@   props C08 C09
+//@   props C08 C09 C14
+//@   flags lock-held-on-entry
 //@   requires packet != nil && packet.Metadata != nil
+//@   requires [C14:packets-are-applied-under-the-process-lock] held(d.lock)
 //@   call Apply#0: assert [C08:terminal-attempt-falls-back-to-last-finished-epoch] (terminal(curOf(d.store, beaconID).State) ==> (finOf(d.store, beaconID) != nil ==> arg0 == finOf(d.store, beaconID)) && (finOf(d.store, beaconID) == nil ==> arg0.State == Fresh && arg0.Epoch == 0 && arg0.FinalGroup == nil)) && (!terminal(curOf(d.store, beaconID).State) ==> arg0 == curOf(d.store, beaconID))
 //@   call SaveCurrent#0: assert [C09:state-saved-only-after-signature-check-over-the-applied-terms] msgVerified(packet, termsOfState(arg2)) && arg2 != nil
 //@   call SaveCurrent#0: assert [C08:nothing-saved-before-validation] nSaves(d.store) == old(nSaves(d.store))
@@ -387,8 +392,10 @@ package dkg
 
 // ---- C14: no DKG message can wedge the node -------------------------------------------
 
-//@ extern (*Process).executeDKG(d, ctx, beaconID, executionStartTime) (err)
-//@   trusted starts the execution goroutine; lock behaviour checked on its own
+//@ func (*Process).executeDKG(d, ctx, beaconID, executionStartTime) (err)
+//@   props C14
+//@   flags lockcheck lock-held-on-entry
+//@   requires [C14:execution-is-set-up-under-the-process-lock] held(d.lock)
 //@   modifies everything
 
 // pbvalid: the top-level request of a handler may be anything protobuf can decode: nested message pointers and
@@ -561,3 +568,20 @@ package dkg
 //@   ensures [C07:reshare-names-the-previous-group-as-the-old-nodes] err == nil ==> cfg.OldNodes == dkgNodesOf(previous.FinalGroup)
 //@   ensures [C07:reshare-signs-with-the-nodes-long-term-key] err == nil ==> cfg.Longterm == keypair.Key
 //@   ensures [C07:reshare-uses-the-new-threshold-and-remembers-the-old-one] err == nil ==> cfg.Threshold == current.Threshold && cfg.OldThreshold == previous.Threshold
+
+// ---- C14: the DKG process keeps two Go maps (running executions, packets seen) that handlers of different requests share ----
+//@ guarded Process.Executions by lock
+//@ guarded Process.SeenPackets by lock
+//@ func (*Process).setupDKG(d, ctx, beaconID) (cfg, err)
+//@   props C14
+//@   flags lockcheck lock-held-on-entry
+//@   requires [C14:execution-setup-runs-under-the-process-lock] held(d.lock)
+//@ iface (Store).Close(s) (err)
+//@   trusted closes the DKG database; no state of the DKG process
+//@   modifies nothing
+//@ iface (Broadcast).Stop(b)
+//@   trusted stops the echo broadcast of one execution (its own dispatcher and channels); no state of the DKG process
+//@   modifies nothing
+//@ func (*Process).Close(d)
+//@   props C14
+//@   flags lockcheck
